@@ -57,6 +57,9 @@ def run(tier):
     c03._directed_memo(_Relabel(chk))
     _c_descending(chk)
     _d_plain_drivers(chk, tier)
+    # the public facade binds every argument to the service parameter it is meant for (nominal swap rule, rules/common.py)
+    from . import common as _common
+    _common.facade_bindings(chk, "C10.d-facade", ['hiten.system.base'], floor=2)
     return chk
 
 
